@@ -4,6 +4,7 @@ import fcntl
 import glob
 import hashlib
 import os
+import re
 import shutil
 import subprocess
 import sys
@@ -89,7 +90,11 @@ def facts_path(config='default', repo=None, quiet=False):
     if os.path.exists(dst):
         os.utime(outdir)
         return dst, info
-    lock = open(os.path.join(CACHE, 'export.lock'), 'w')
+    # self-test drivers running side by side may name a slot of their own (VERIF_EXPORT_SLOT): a separate build directory
+    # and lock, so that their exports do not queue behind each other; the registered checks use the default slot
+    slot = re.sub(r'[^A-Za-z0-9_]', '', os.environ.get('VERIF_EXPORT_SLOT', ''))
+    sfx = ('-' + slot) if slot else ''
+    lock = open(os.path.join(CACHE, 'export%s.lock' % sfx), 'w')
     fcntl.flock(lock, fcntl.LOCK_EX)
     try:
         if os.path.exists(dst):
@@ -97,7 +102,7 @@ def facts_path(config='default', repo=None, quiet=False):
         ensure_driver()
         t0 = time.time()
         feats, targets = CONFIGS[config]
-        tgt = os.path.join(CACHE, 'target-' + config)
+        tgt = os.path.join(CACHE, 'target-' + config + sfx)
         tmp_out = os.path.join(CACHE, 'out-%d' % os.getpid())
         shutil.rmtree(tmp_out, ignore_errors=True)
         os.makedirs(tmp_out)
